@@ -9,4 +9,26 @@ RULE = ("family `fe` (srv mode): every reply-bearing operation and every acknowl
         "awaited reply or acknowledgement.")
 ASSUMPTIONS = ["the serve loop closes the connection when handle_request returns an error (VhostUserDaemon does)",
                "a device whose GET_FEATURES answer changes within one connection is outside the quantifier"]
-FAMILIES = [FeFamily(modes=("srv",), quick=(3500, 0, 0), thorough=(60000, 0, 0))]
+REPLY_OPS = ("get_", "check_device_state", "set_device_state_fd", "postcopy_advise", "set_log_base")
+
+
+class AwaitFe(FeFamily):
+    def nontrivial(self, line, obs):
+        # a call that reached the handler and awaits a reply (getter) or an acknowledgement (NEED_REPLY requested after
+        # REPLY_ACK was acknowledged)
+        ops = [o.strip() for o in line.split(" | ")[1:]]
+        need = False
+        ack = False
+        for o, p in zip(ops, self.steps(obs)):
+            t = o.split()
+            if t[0] == "set_hdr_flags":
+                need = len(t) > 1 and int(t[1], 16) & 8 != 0
+            reached = " c=-" not in p
+            if t[0] == "set_protocol_features" and reached and len(t) > 1:
+                ack = int(t[1], 16) & 8 != 0
+            elif reached and (t[0].startswith(REPLY_OPS) or (need and ack)):
+                return True
+        return False
+
+
+FAMILIES = [AwaitFe(modes=("srv",), quick=(3500, 0, 0), thorough=(60000, 0, 0))]
